@@ -8,6 +8,7 @@ from . import runner
 CONTRACTS = {
     'C04': 'contracts.c04',
     'C05': 'contracts.c05',
+    'C13': 'contracts.c13',
 }
 
 
